@@ -175,25 +175,75 @@ def rule_headset(F, rep):
               "LocatedAddress ordering is not derived/id-first (fields %s)" % fields)
 
 
+def _direct_sources(f, local, depth=0, seen=None):
+    """What a returned Option/Result *is* (not what it was computed from): follows whole-value moves, the field of
+    an Ok(..) wrapper and error-only adapters (map_err / into / from); stops at aggregates of Option (None / Some)
+    and at calls. Returns [('none'|'some', Stmt) | ('call', Call) | ('other', site)]."""
+    seen = seen if seen is not None else set()
+    if local in seen or depth > 12:
+        return []
+    seen.add(local)
+    out = []
+    for kind, site in f.defs().get(local, []):
+        if kind == "stmt":
+            if site.place.proj:
+                continue   # partial write (field init); the whole-value definition is elsewhere
+            k = site.rv_kind()
+            if k == "use":
+                o = site.operands()[0]
+                if o.place is not None and not o.place.proj:
+                    out += _direct_sources(f, o.place.local, depth + 1, seen)
+                else:
+                    out.append(("other", site))
+            elif k == "agg":
+                v = site.rv[1].get("variant")
+                if v in ("Ok",) and site.operands() and site.operands()[0].place is not None and not site.operands()[0].place.proj:
+                    out += _direct_sources(f, site.operands()[0].place.local, depth + 1, seen)
+                elif v == "None":
+                    out.append(("none", site))
+                elif v == "Some":
+                    out.append(("some", site))
+                else:
+                    out.append(("other", site))
+            else:
+                out.append(("other", site))
+        else:
+            if site.is_("result::Result::map_err", "convert::Into::into", "convert::From::from") and site.args and site.args[0].place is not None \
+                    and not site.args[0].place.proj:
+                out += _direct_sources(f, site.args[0].place.local, depth + 1, seen)
+            else:
+                out.append(("call", site))
+    return out
+
+
 def rule_locate(F, rep):
     """Transaction::locate says 'not present' only after searching the committed graph *and* every tip of the
     transaction: a command that is in the graph but reported absent is ingested a second time (duplicate
-    application, spurious extra head)."""
+    application, spurious extra head). An exit can say 'absent' by returning a None it builds, or by returning
+    the result of one of the two searches as it is; in both cases the *other* search must have come back empty."""
     f = F.fn(TX + "Transaction::locate")
     gl = [c for c in f.calls if c.trait and c.trait.endswith("storage::Storage") and c.name == "get_location"]
     gf = [c for c in f.calls if c.trait and c.trait.endswith("storage::Storage") and c.name == "get_location_from"]
     nx = [c for c in f.calls if c.is_("Iterator::next") and "field:heads" in f.origins(c.args[0], through_calls="*")]
-    nones = [s for s in f.stmts() if s.rv_kind() == "agg" and s.rv[1].get("variant") == "None" and not s.place.proj]
-    rets_none = []
-    for s in pat.ok_returns(f):
-        for o in s.operands():
-            if o.place is not None and any(k == "stmt" and d in nones for k, d in f.backward_sources(o.place.local, through_calls=())[1]):
-                rets_none.append(s)
-    ok = len(gl) == 1 and len(gf) >= 1 and len(nx) == 1 and bool(rets_none)
+    ok = len(gl) == 1 and len(gf) >= 1 and len(nx) == 1
+    why = ""
     if ok:
         oe = f.outcome_edges(gl[0])
         on = f.outcome_edges(nx[0])
-        ok = "None" in oe and "None" in on and all(f.dominates(oe["None"][1], s.bb) and f.dominates(on["None"][1], s.bb) for s in rets_none)
+        exits = []
+        for kind, site in _direct_sources(f, 0):
+            if kind == "none" or (kind == "call" and (site in gl or site in gf)):
+                exits.append((kind, site))
+        ok = bool(exits) and "None" in on
+        for kind, site in exits:
+            if not ok:
+                break
+            if site in gf:
+                ok = False   # a tip search returned as the answer cannot have covered the remaining tips
+                continue
+            if site not in gl:
+                ok = ok and "None" in oe and f.dominates(oe["None"][1], site.bb)
+            ok = ok and f.dominates(on["None"][1], site.bb)
         ok = ok and "argname:address" in f.origins(gl[0].args[1], through_calls=()) and all("argname:address" in f.origins(c.args[2], through_calls=()) for c in gf)
     rep.check(ok, "locate|absent-only-after-both-searches", "K2 guarded-by",
               "Transaction::locate returns Ok(None) only where storage.get_location(address) found nothing and the loop over self.heads ran to exhaustion",
